@@ -352,6 +352,9 @@ func mutate(t reflect.Type, root any) []mutant {
 func (c09) Run(c *fw.Case) {
 	r := c.R
 	t, opts, _ := pickType(c, true)
+	if c.Idx%4 == 1 {
+		decoyInfer(c, t) // call history: the same type inferred with other options first
+	}
 	s, rs, ok := inferAndResolve(c, t, opts)
 	if !ok {
 		return
